@@ -140,6 +140,9 @@ F = [
   "Exp reported Overflow for arguments a hair above a multiple of 23 (the working precision was derived from |x| rounded to a float64): Exp(3611.0000000000000000001) P=41 Emax=100000 returned Infinity",
   {"C12": [ar("exp", ctx(41, 100000, -100000, "down"), dec("36110000000000000000001", -19)), ar("exp", ctx(41, 100000, -100000, "down"), dec("98900000000000004", -14)),
            ar("exp", ctx(5, 1000, -1000, "half_even"), dec("11500000000000000000001", -20))]}),
+ ("D50", "Exp of an argument whose square is below the working precision is 1 + x",
+  "Exp failed with 'exponent out of range' for tiny arguments at precisions beyond about 50000, where the terms of its series (numbers of Precision digits around the size of x) have exponents below the package's MinExponent although the result is 1 + x: Exp(-7E-50001) at Precision 50001, Exp(1E-60000) at Precision 60005 (found by hand while extending C12's near-one classes to precisions around the size of the difference; C12 now draws that class for Exp too)",
+  {"C12": [ar("exp", ctx(50001, 1000, -1000, "floor"), dec(7, -50001, True)), ar("exp", ctx(60005, 100000, -100000, "half_even"), dec(1, -60000))]}),
  ("D49", "Exp keeps track of which side of a power of ten a result came from",
   "Exp returned exactly 1 for arguments below a unit of the working precision, losing the side: Exp(-0.09) at Precision 1, MinExponent 0, RoundDown returned 1 with Inexact|Rounded where the true value 0.914 rounds down to 0.9 and is subnormal (found when C12 began to derive Subnormal from the enclosure)",
   {"C12": [ar("exp", ctx(1, 1, 0, "down"), dec(9, -2, True)), ar("exp", ctx(1, 0, 0, "down"), dec(23025851, -9, True)), ar("exp", ctx(1, 0, -100000, "half_up"), dec("230258532325256", -9, True))]}),
